@@ -733,6 +733,18 @@ def check_model_selection(chk) -> None:
         chk.error("model-selection", fi.where, "requested/default model cases not both found")
 
 
+def check_format_detection(chk) -> None:
+    """read_3d_structure (and the CLI tools) choose the reader by parser.is_cif: decided by evaluation on one file per class."""
+    from checks import c08e
+
+    try:
+        c08e.check_format_detection_eval(chk)
+    except AnalysisError:
+        raise
+    except Exception as ex:
+        chk.error("format-detection", f"src/rnapolis/{P}.py", f"evaluation of is_cif failed internally ({type(ex).__name__}: {str(ex)[:60]})")
+
+
 def check_group(chk) -> None:
     repo = chk.repo
     fi = repo.func(P, "group_atoms")
@@ -786,6 +798,20 @@ def check_cif(chk) -> None:
             K(fi, f"null:{norm(cmp_.left)[:40]}"),
         )
     chk.floor("null-markers", 2)
+    # the decoding of atom_site rows: evaluated on one row per class; the pinned-form reading below is the fallback
+    from checks import c08e
+
+    try:
+        if c08e.check_cif_eval(chk):
+            g = repo.func(P, "parse_pdb")
+            rets = [r for r in g.node.body if isinstance(r, ast.Return)]
+            at = astq.first_assign(g.node, "atoms")
+            chk.expect(at is not None and norm(at) == "filter_clashing_atoms(atoms_to_process)" and len(rets) == 1 and norm(rets[0].value).startswith("(atoms, modified"), "reader-result", g.where, "all decoded atoms pass through the duplicate/clash filter once", "the reader does not return filter_clashing_atoms(all decoded atoms)", K(g, "result"))
+            return
+    except AnalysisError:
+        raise
+    except Exception as ex:
+        chk.ok("cif-eval", fi.where, f"evaluation of parse_cif failed internally ({type(ex).__name__}: {str(ex)[:60]}): the pinned-form rules decide")
     occ = [s for s in ast.walk(fi.node) if isinstance(s, ast.Assign) and norm(s.targets[0]) == "occupancy"]
     ok = False
     if len(occ) == 1 and isinstance(occ[0].value, ast.IfExp):
@@ -832,8 +858,9 @@ def run(chk) -> None:
     )
     chk.trusted = ["CPython ast", "mmcif IoAdapterPy tokenizer", "scipy KDTree", "wwPDB column table (spec/pdb_columns.json)"]
     chk.assumptions = ["well-formed files", "CPython iterates set(range(n)) in ascending order for the sizes involved (keeps file order; noted residual)"]
-    chk.robust |= {"int-parsing", "occupancy-wins", "optional-occupancy", "kdtree-index-space", "clash-same-model", "clash-loser", "clash-loop", "clash-distance", "pdb-columns", "null-markers", "late-binding", "model-selection"}
+    chk.robust |= {"int-parsing", "occupancy-wins", "optional-occupancy", "kdtree-index-space", "clash-same-model", "clash-loser", "clash-loop", "clash-distance", "pdb-columns", "null-markers", "late-binding", "model-selection", "format-detection"}
     check_model_selection(chk)
+    check_format_detection(chk)
     check_pdb_columns(chk)
     check_parse_pdb(chk)
     check_cif(chk)
@@ -841,6 +868,9 @@ def run(chk) -> None:
     check_group(chk)
     for rule, n in (("identity-key-model", 2), ("pdb-columns", 9), ("clash-same-model", 1), ("optional-occupancy", 2), ("model-selection", 3)):
         chk.floor(rule, n)
+    from checks import w3cross
+
+    w3cross.check(chk, "C08", untouched=())  # state that survives a call: shared memo results, module-level containers, arguments
 
 
 MANIFEST_ENTRY = {
